@@ -2,7 +2,7 @@
 preprocess_image_tff (centre and random), the argument guard, the random crop of
 preprocess_image, and the standardisation expressions (symbolic over sqrt)."""
 import ast
-from lib.c20tr import D, _T, _unsupported, _body, zdef, _first_assign
+from lib.c20tr import A_forwarding, D, _T, _unsupported, _body, zdef, _first_assign
 
 SRC = 'fedjax/datasets/cifar100.py'
 
@@ -228,6 +228,9 @@ MODULES = {
     'Gen_ds_cifar100_norm': {'src': SRC, 'items': [_plain_norm]},
     'Gen_ds_cifar100': {
         'src': SRC,
-        'items': [_tff, _plain],
+        'items': [_tff, _plain,
+                  A_forwarding('preprocess_batch_tff', 'preprocess_image_tff', 'cifar_batch_tff_forwards'),
+                  A_forwarding('preprocess_batch', 'preprocess_image', 'cifar_batch_forwards'),
+                  A_forwarding('load_data', 'load_split', 'cifar_load_data_forwards')],
     },
 }
